@@ -12,7 +12,13 @@ import (
 	"sync"
 )
 
-const VerifDir = "/verif"
+// VerifDir is /verif, or a snapshot of it when run.sh is started from one.
+var VerifDir = func() string {
+	if d := os.Getenv("VERIF_DIR"); d != "" {
+		return d
+	}
+	return "/verif"
+}()
 
 // Violation is one oracle failure. Sig identifies the failing rule and a
 // normalised witness (used to match known findings); Detail is human readable.
